@@ -128,6 +128,14 @@ def run(tier, seed):
               ("from_str(as_str(l)) == Ok(l)", roundtrip, ref_roundtrip),
               ("direction(l) == CLDR direction of the configured name", dir_term, ref_dir),
               ("as_icu_locale(l) == locale!(configured name)", icu_term, ref_icu)]
+        # the cookie codec (codee FromToStringCodec) encodes with Display and decodes with FromStr
+        disp = le.get("display_term")
+        if disp is not None:
+            if "err" in disp:
+                inconclusive.append((c.tag, "Display for the locale enum: " + disp["err"]))
+            else:
+                qs.append(("Display prints the configured name (what the cookie stores)", disp, ref_as_str))
+                qs.append(("from_str(to_string(l)) == Ok(l) (cookie round trip)", subst_var(from_str, "s", disp), ref_roundtrip))
         for label, a, b in qs:
             try:
                 ctx = smt.ctx_for(h["locales"], a, b)
